@@ -94,6 +94,7 @@ thread_local! {
 
 static GLOBAL_RECORDER: Mutex<Option<Arc<Recorder>>> = Mutex::new(None);
 static GLOBAL_CAPACITY: AtomicUsize = AtomicUsize::new(0);
+static GLOBAL_CONTROLLER: Mutex<Option<Arc<dyn Controller>>> = Mutex::new(None);
 
 /// Installs (or removes) the recorder for the current thread.
 pub fn install_local(recorder: Option<Arc<Recorder>>) {
@@ -169,8 +170,14 @@ pub fn install_local_controller(controller: Option<Arc<dyn Controller>>) {
     LOCAL_CONTROLLER.with(|c| *c.borrow_mut() = controller);
 }
 
+/// Installs (or removes) the schedule controller for every thread without a local one.
+pub fn install_global_controller(controller: Option<Arc<dyn Controller>>) {
+    *GLOBAL_CONTROLLER.lock().unwrap() = controller;
+}
+
 fn controller() -> Option<Arc<dyn Controller>> {
-    LOCAL_CONTROLLER.with(|c| c.borrow().clone())
+    let local = LOCAL_CONTROLLER.with(|c| c.borrow().clone());
+    local.or_else(|| GLOBAL_CONTROLLER.lock().unwrap().clone())
 }
 
 /// A schedule point: ready at once unless a controller is installed.
